@@ -1,31 +1,31 @@
 -- REGENERATED from src/cmap/cmap.go, src/cmap/cerrmap.go by /verif/harness/extract/c15 on every run. Do not edit.
 namespace PlzVerif.Generated.C15
--- a row is (case, store, close, returned values, calls, lock operations, unclassified effects)
+-- a row is (case, store, close, returned values, calls, lock operations and map accesses in program order, further effects)
 def setRows : List (String × String × String × String × List String × List String × List String) := [
-  ("absent/ow", "val:param", "-", "true", [], ["Lock", "defer Unlock"], []),
-  ("absent/!ow", "val:param", "-", "true", [], ["Lock", "defer Unlock"], []),
-  ("val/ow", "val:param", "-", "true", [], ["Lock", "defer Unlock"], []),
-  ("val/!ow", "-", "-", "false", [], ["Lock", "defer Unlock"], []),
-  ("waiting/ow", "val:param", "entry#1.Wait", "true", [], ["Lock", "defer Unlock"], []),
-  ("waiting/!ow", "val:param", "entry#1.Wait", "true", [], ["Lock", "defer Unlock"], [])]
+  ("absent/ow", "val:param", "-", "true", [], ["Lock", "defer Unlock", "access"], []),
+  ("absent/!ow", "val:param", "-", "true", [], ["Lock", "defer Unlock", "access"], []),
+  ("val/ow", "val:param", "-", "true", [], ["Lock", "defer Unlock", "access"], []),
+  ("val/!ow", "-", "-", "false", [], ["Lock", "defer Unlock", "access"], []),
+  ("waiting/ow", "val:param", "entry#1.Wait", "true", [], ["Lock", "defer Unlock", "access"], []),
+  ("waiting/!ow", "val:param", "entry#1.Wait", "true", [], ["Lock", "defer Unlock", "access"], [])]
 def lazySetRows : List (String × String × String × String × List String × List String × List String) := [
-  ("absent", "val:f", "-", "p1(),true", ["p1()"], ["Lock", "defer Unlock"], []),
-  ("val", "-", "-", "entry#1.Val,false", [], ["Lock", "defer Unlock"], []),
-  ("waiting", "val:f", "entry#1.Wait", "p1(),true", ["p1()"], ["Lock", "defer Unlock"], [])]
+  ("absent", "val:f", "-", "p1(),true", ["p1()"], ["Lock", "defer Unlock", "access"], []),
+  ("val", "-", "-", "entry#1.Val,false", [], ["Lock", "defer Unlock", "access"], []),
+  ("waiting", "val:f", "entry#1.Wait", "p1(),true", ["p1()"], ["Lock", "defer Unlock", "access"], [])]
 def getRows : List (String × String × String × String × List String × List String × List String) := [
-  ("fast:val", "-", "-", "entry#1.Val,entry#1.Wait,false", [], ["RLock", "RUnlock"], []),
-  ("fast:waiting", "-", "-", "entry#1.Val,entry#1.Wait,false", [], ["RLock", "RUnlock"], []),
-  ("slow:absent", "placeholder", "-", "zero,make(chan),true", [], ["RLock", "RUnlock", "Lock", "defer Unlock"], []),
-  ("slow:val", "-", "-", "entry#2.Val,entry#2.Wait,false", [], ["RLock", "RUnlock", "Lock", "defer Unlock"], []),
-  ("slow:waiting", "-", "-", "entry#2.Val,entry#2.Wait,false", [], ["RLock", "RUnlock", "Lock", "defer Unlock"], [])]
+  ("fast:val", "-", "-", "entry#1.Val,entry#1.Wait,false", [], ["RLock", "access", "RUnlock"], []),
+  ("fast:waiting", "-", "-", "entry#1.Val,entry#1.Wait,false", [], ["RLock", "access", "RUnlock"], []),
+  ("slow:absent", "placeholder", "-", "zero,make(chan),true", [], ["RLock", "access", "RUnlock", "Lock", "defer Unlock", "access"], []),
+  ("slow:val", "-", "-", "entry#2.Val,entry#2.Wait,false", [], ["RLock", "access", "RUnlock", "Lock", "defer Unlock", "access"], []),
+  ("slow:waiting", "-", "-", "entry#2.Val,entry#2.Wait,false", [], ["RLock", "access", "RUnlock", "Lock", "defer Unlock", "access"], [])]
 def containsRows : List (String × String × String × String × List String × List String × List String) := [
-  ("any", "-", "-", "present#1", [], ["RLock", "defer RUnlock"], [])]
+  ("any", "-", "-", "present#1", [], ["RLock", "defer RUnlock", "access"], [])]
 def valuesRows : List (String × String × String × String × List String × List String × List String) := [
-  ("val", "-", "-", "make(slice)", [], ["RLock", "defer RUnlock"], ["append entry#1.Val"]),
-  ("waiting", "-", "-", "make(slice)", [], ["RLock", "defer RUnlock"], [])]
+  ("val", "-", "-", "make(slice)", [], ["RLock", "defer RUnlock", "access"], ["append entry#1.Val"]),
+  ("waiting", "-", "-", "make(slice)", [], ["RLock", "defer RUnlock", "access"], [])]
 def rangeRows : List (String × String × String × String × List String × List String × List String) := [
-  ("val", "-", "-", "", ["p0(key#1,entry#1.Val)"], ["RLock", "defer RUnlock"], []),
-  ("waiting", "-", "-", "", [], ["RLock", "defer RUnlock"], [])]
+  ("val", "-", "-", "", ["p0(key#1,entry#1.Val)"], ["RLock", "defer RUnlock", "access"], []),
+  ("waiting", "-", "-", "", [], ["RLock", "defer RUnlock", "access"], [])]
 def mapRows : List (String × String × String × String × List String × List String × List String) := [
   ("Add", "-", "-", "recv.shards[recv.hasher(p0)&recv.mask].Set(p0,p1,false)", [], [], []),
   ("AddOrGet", "-", "-", "recv.shards[recv.hasher(p0)&recv.mask].LazySet(p0,p1)", [], [], []),
